@@ -480,6 +480,8 @@ def _smooth_ranking(rc: RuleCtx):
         penv = {fname_: F, wname_: W}
         fr2.block(post, penv, TRUE)
         val = mk_pw(fr2.returns)
+        from .common import account_returns
+        account_returns(fi)         # (the value returned after the loop is compared with the reference just below)
         S = anf.f_sum(W, sym("K"))
         nz = canon_sign(S, OPS["!="])
         want = mk_pw([(nz, F * W / S), (g_not(nz), F * W)])
